@@ -120,11 +120,30 @@ class StmtMixin:
                 if k == "raise":
                     out.append(("raise", o, s))
                     continue
+                if isinstance(o, Opt):
+                    alive = None
+                    for none, s_ in self.branch(s, o.none):
+                        if none:
+                            out.extend(self.raise_ext(s_, "AttributeError", f"'NoneType' object has no attribute '{target.attr}'"))
+                        else:
+                            alive = s_
+                    if alive is None:
+                        continue
+                    s = alive
+                if o is None:
+                    out.extend(self.raise_ext(s, "AttributeError", f"'NoneType' object has no attribute '{target.attr}'"))
+                    continue
                 o = ops.strip_opt(o)
                 if isinstance(o, Ref) and (isinstance(o.cls, ClassInfo) or o.cls == "symexc" or str(o.cls).startswith("exc:")):
                     if isinstance(o.cls, ClassInfo) and o.cls.is_dataclass and o.cls.frozen and not s.env.get("__init_of__") == o.oid:
                         out.extend(self.raise_ext(s, "FrozenInstanceError", target.attr))
                         continue
+                    if isinstance(o.cls, ClassInfo):
+                        m_ = o.cls.find_method(target.attr)
+                        if m_ is not None and "property" in m_.decorators:
+                            # a property without setter (setters are not in the decorator allowlist): assignment raises
+                            out.extend(self.raise_ext(s, "AttributeError", f"property '{target.attr}' has no setter"))
+                            continue
                     s.setfield(o, target.attr, v)
                     self.hooks.on_store(self, s, o, target.attr, v)
                     out.append(s)
